@@ -166,6 +166,10 @@ def texts_stage(rep, tier, wd, rng):
     for n in (100, 400):
         srcs.append('register q[1]\n' + '{<' * n + 'g q[0]' + '>}' * n + '\n')
     srcs.append('register q[1]\n' + 'loop 1 {' * 300 + 'g q[0]' + '}' * 300 + '\n')
+    # (6) a block comment that is never closed, with a long tail (input that ends too early, inside a comment)
+    for tail in ('a remark that nobody ever closed, followed by the rest of the file\nregister q[2]\ng q[0]\n', 'x' * 60, 'stars * inside * the remark ' * 3):
+        srcs.append('register q[1]\n/* ' + tail)
+        srcs.append('g q[0] /*' + tail)
     srcs = sorted(set(s for s in srcs if all(ord(ch) < 256 for ch in s)))
     cases = [{'id': 'text/%d' % n, 'src': s} for n, s in enumerate(srcs)]
     # witnesses of known findings (open and fixed) are replayed like any other text
